@@ -107,7 +107,13 @@ def _frame(args):
         variants[f"scaled_{s:.3g}"] = build(d, [s * x for x in d["w"]])
         import pandas as pd
         lab = list(range(len(d["w"]))); random.Random(len(rows)).shuffle(lab)
-        variants["series_labelled"] = build(d, pd.Series(d["w"], index=lab))          # a weight vector is a weight vector whatever labels it carries
+        variants["series_labelled"] = build(d, pd.Series(d["w"], index=lab))
+        shared = {m: {"sample_weight": d["w"]} for m in names}                # ONE sample_params object used for two frames (e.g. two models)
+        kw2 = dict(metrics=metrics, y_true=d["y"], y_pred=d["p"], sensitive_features=d["g"], sample_params=shared)
+        if control:
+            kw2["control_features"] = d["c"]
+        fm.MetricFrame(**kw2)
+        variants["second_frame_same_params_object"] = fm.MetricFrame(**kw2)          # a weight vector is a weight vector whatever labels it carries
         if all(r[4] == 1 for r in rows):
             variants["omitted"] = build(d, None)
         nev += len(variants)
